@@ -201,20 +201,28 @@ def check_product(rec, info, cy, case):
 
 
 def make_connect(rnd):
+    # in every odd repetition (and a fifth of the others) the second method validates its argument (accepts odd values only): whether the pair can run then depends on the
+    # data that the first method returns in that cycle
+    val = getattr(rnd, "rep", 0) % 2 == 1 or rnd.random() < 0.2  # every odd repetition
+    kw = {"validate_arguments": lambda x: x[0]} if val else {}
     if rnd.random() < 0.5:
-        t1, t2 = fresh_target(), fresh_target()
-        return ConnectTrans.create(t1.iface, t2.iface), [], [t1, t2], ()
+        t1, t2 = fresh_target(), Adapter(i=L, o=L, **kw)
+        return ConnectTrans.create(t1.iface, t2.iface), [], [t1, t2], (val,)
     dut = ConnectTrans(L, L)
-    return dut, [], [mk_target(dut.method1), mk_target(dut.method2)], ()
+    return dut, [], [mk_target(dut.method1), Adapter.create(dut.method2, **kw)], (val,)
 
 
 def check_connect(rec, info, cy, case):
     ten, td, ta, tret = cy["t_en"], cy["t_done"], cy["t_arg"], cy["t_ret"]
-    rec.check("connect:transfers_exactly_when_both_can_run", td[0] == td[1] == (ten[0] and ten[1]), case=case, detail=cy)
+    val = bool(info and info[0])
+    accepted = (not val) or bool(tret[0] & 1)  # the argument of the second method is what the first one returns
+    rec.check("connect:transfers_exactly_when_both_can_run", td[0] == td[1] == bool(ten[0] and ten[1] and accepted), case=case, detail=dict(cy, second_method_validates_odd=val))
     if td[0] and td[1]:
         rec.check("connect:data_crosses_both_ways", ta[0] == tret[1] and ta[1] == tret[0], case=case, detail=cy)
         rec.count("calls")
-    rec.nontrivial(f"connect|{int(ten[0])}{int(ten[1])}")
+    if val and ten[0] and ten[1]:
+        rec.count("connect_cycles_decided_by_the_exchanged_data")
+    rec.nontrivial(f"connect|{int(ten[0])}{int(ten[1])}|v{int(val)}a{int(accepted)}")
 
 
 def make_crossbar(rnd):
